@@ -51,7 +51,8 @@ class Contract(object):
         self.params = list(d['params'])                 # [(name, type)]
         self.requires = list(d.get('requires', []))
         self.ensures = list(d.get('ensures', []))
-        self.modifies = list(d.get('modifies', []))
+        self.modifies = [m for m in d.get('modifies', []) if m not in d.get('modifies_scalar', [])]
+        self.modifies_scalar = list(d.get('modifies_scalar', []))
         self.returns = d.get('returns', None)           # type descriptor or tuple of them; '=p' aliases param p
         self.loops = {k: LoopSpec(v) for k, v in d.get('loops', {}).items()}
         self.raises = dict(d.get('raises', {}))         # exc name -> condition over the entry state
@@ -88,8 +89,12 @@ class Library(object):
 
 
 class FuncVerifier(object):
-    def __init__(self, lib, filekey, fdef, contract, module_funcs, class_name=None):
+    def __init__(self, lib, filekey, fdef, contract, module_funcs, class_name=None, modules=None):
         self.lib = lib
+        self.modules = modules
+        self.class_name = class_name
+        self.inline_depth = 0
+        self.auto_ord = {}
         self.filekey = filekey
         self.fdef = fdef
         self.c = contract
@@ -149,7 +154,10 @@ class FuncVerifier(object):
         if extra:
             env = dict(env)
             env.update(extra)
-        return SpecEval(self.lib.theory, env, st.heap, self.entry.env, self.entry.heap, self.lib.preds, bound)
+        sp = SpecEval(self.lib.theory, env, st.heap, self.entry.env, self.entry.heap, self.lib.preds, bound)
+        sp.fresh_locs = st.fresh_locs
+        sp.entry_locs = self.entry.heap.keys()
+        return sp
 
     # ------------------------------------------------------------------ hints (ghost code)
     def apply_hints(self, st, hints, site, extra=None):
@@ -242,7 +250,7 @@ class FuncVerifier(object):
             return fresh(name, R)
         if t == 'cplx':
             return fresh(name, CPLX)
-        if t in TYPE_ARR:
+        if isinstance(t, str) and t in TYPE_ARR:
             nd, el = TYPE_ARR[t]
             av = fresh_array(name, nd, el)
             for d in av.shape:
@@ -304,7 +312,7 @@ class FuncVerifier(object):
             elif isinstance(o0, Obj):
                 for f, fv in o0.fields.items():
                     pf = '%s.%s' % (p, f)
-                    if pf in self.c.modifies:
+                    if pf in self.c.modifies or pf in self.c.modifies_scalar:
                         continue
                     cur = o1.fields.get(f)
                     if isinstance(fv, Ref):
@@ -753,7 +761,15 @@ class FuncVerifier(object):
         if n.id in ('numpy', 'np'):
             return Tag('module', 'numpy')
         if n.id in self.module_funcs:
-            return Tag('func', n.id)
+            return Tag('func', n.id, self.filekey)
+        if self.modules is not None:
+            r = self.modules.resolve(self.cur_file(), n.id)
+            if r is not None and r[0] == 'func':
+                return Tag('func', n.id, r[1])
+            if r is not None and r[0] == 'class':
+                return Tag('class', n.id, r[1])
+        if n.id in ('isinstance', 'type', 'super', 'len', 'int', 'range', 'reversed'):
+            return Tag('builtin', n.id)
         raise OutOfFragment('unknown name %r' % n.id, n)
 
     def ex_Tuple(self, n, st):
@@ -778,6 +794,11 @@ class FuncVerifier(object):
 
     def ex_IfExp(self, n, st):
         c = self.truth(self.pev(n.test, st), st, n)
+        cs0 = z3.simplify(c)
+        if z3.is_true(cs0):
+            return self.pev(n.body, st)
+        if z3.is_false(cs0):
+            return self.pev(n.orelse, st)
         a = self.pev(n.body, st)
         b = self.pev(n.orelse, st)
         if not (is_z3(a) and is_z3(b)):
@@ -796,6 +817,16 @@ class FuncVerifier(object):
         out = []
         for op, rn in zip(n.ops, n.comparators):
             right = self.pev(rn, st)
+            if isinstance(op, (ast.Is, ast.IsNot)):
+                if left is None or right is None:
+                    same_ = left is None and right is None
+                elif isinstance(left, Ref) and isinstance(right, Ref):
+                    same_ = left.loc == right.loc
+                else:
+                    raise OutOfFragment('`is` between these values', n)
+                out.append(z3.BoolVal(same_ if isinstance(op, ast.Is) else not same_))
+                left = right
+                continue
             if isinstance(left, (Ref, View, AV)) or isinstance(right, (Ref, View, AV)):
                 if len(n.ops) != 1:
                     raise OutOfFragment('chained array comparison', n)
@@ -855,7 +886,18 @@ class FuncVerifier(object):
             o = st.heap[v.loc]
             if n.attr in o.fields:
                 return o.fields[n.attr]
+            m = self.find_method(o.cls, n.attr)
+            if m is None:
+                raise OutOfFragment('object of class %s has no attribute %s' % (o.cls, n.attr), n)
+            mfile, mcls, mdef = m
+            if any(isinstance(d, ast.Name) and d.id == 'property' for d in mdef.decorator_list):
+                return self.inline_call(mfile, mcls, mdef, [v], {}, st, n)
             return Tag('omethod', v, n.attr)
+        if isinstance(v, Tag) and v.kind == 'super':
+            m = self.find_method(v[1], n.attr, skip_first=True)
+            if m is None:
+                raise OutOfFragment('super().%s not found' % n.attr, n)
+            return Tag('boundmethod', m, v[2])
         if isinstance(v, Ref) and isinstance(st.heap[v.loc], ListObj):
             return Tag('lmethod', v, n.attr)
         raise OutOfFragment('attribute .%s of %r' % (n.attr, type(v).__name__), n)
@@ -902,15 +944,18 @@ class FuncVerifier(object):
 
     # ------------------------------------------------------------------ calls
     def ex_Call(self, n, st):
-        f = self.pev(n.func, st) if not isinstance(n.func, ast.Name) or n.func.id in st.env or n.func.id in self.module_funcs \
-            else Tag('builtin', n.func.id)
-        if n.keywords and not (isinstance(f, Tag) and f.kind == 'module'):
-            raise OutOfFragment('keyword arguments in a call', n)
+        if isinstance(n.func, ast.Name) and n.func.id not in st.env and n.func.id not in self.module_funcs \
+                and (self.modules is None or self.modules.resolve(self.cur_file(), n.func.id) is None):
+            f = Tag('builtin', n.func.id)
+        else:
+            f = self.pev(n.func, st)
         if isinstance(f, Tag) and f.kind == 'builtin':
             return self.call_builtin(f[1], n, st)
         if isinstance(f, Tag) and f.kind == 'module':
             return self.call_numpy(f[1], n, st)
         if isinstance(f, Tag) and f.kind == 'method':
+            if n.keywords:
+                raise OutOfFragment('keyword arguments in an array method call', n)
             return self.call_method(f[1], f[2], n, st)
         if isinstance(f, Tag) and f.kind == 'lmethod':
             lst = st.heap[f[1].loc]
@@ -921,12 +966,194 @@ class FuncVerifier(object):
                 st.heap[f[1].loc] = ListObj(lst.items + [v])
                 return None
             raise OutOfFragment('list method .%s' % f[2], n)
+        args, kwargs = self.eval_args(n, st)
         if isinstance(f, Tag) and f.kind == 'func':
-            args = [self.pev(a, st) for a in n.args]
-            return self.call_contract(f[1], args, n, st)
-        raise OutOfFragment('call of %r' % (f,), n)
+            fname, ffile = f[1], f[2]
+            callee = self.lib.by_name.get((ffile, fname))
+            if callee is not None:
+                if kwargs:
+                    raise OutOfFragment('keyword arguments in a call to a contracted function', n)
+                return self.call_contract(fname, args, n, st, ffile)
+            r = self.modules.resolve(ffile, fname) if self.modules else None
+            if r is None:
+                raise OutOfFragment('call to %s which has no contract' % fname, n)
+            return self.inline_call(r[1], None, r[2], args, kwargs, st, n)
+        if isinstance(f, Tag) and f.kind == 'class':
+            return self.instantiate(f[1], f[2], args, kwargs, st, n)
+        if isinstance(f, Tag) and f.kind == 'omethod':
+            recv, meth = f[1], f[2]
+            o = st.heap[recv.loc]
+            mfile, mcls, mdef = self.find_method(o.cls, meth)
+            callee = self.lib.contracts.get('%s::%s.%s' % (mfile, mcls, meth))
+            if callee is not None and not kwargs:
+                return self.call_contract('%s.%s' % (mcls, meth), [recv] + args, n, st, mfile, callee=callee)
+            return self.inline_call(mfile, mcls, mdef, [recv] + args, kwargs, st, n)
+        if isinstance(f, Tag) and f.kind == 'boundmethod':
+            (mfile, mcls, mdef), recv = f[1], f[2]
+            return self.inline_call(mfile, mcls, mdef, [recv] + args, kwargs, st, n)
+        raise OutOfFragment('call of %r' % (getattr(f, 'kind', f),), n)
+
+    def eval_args(self, n, st):
+        args = []
+        for a in n.args:
+            if isinstance(a, ast.Starred):
+                v = self.pev(a.value, st)
+                if not isinstance(v, tuple):
+                    raise OutOfFragment('*args of a non-tuple', n)
+                args.extend(v)
+            else:
+                v = self.pev(a, st)
+                args.append(v)
+        kwargs = {}
+        for k in n.keywords:
+            if k.arg is None:
+                v = self.pev(k.value, st)
+                if not isinstance(v, dict):
+                    raise OutOfFragment('**kwargs of a non-dict', n)
+                kwargs.update(v)
+            else:
+                kwargs[k.arg] = self.pev(k.value, st)
+        return args, kwargs
+
+    # ------------------------------------------------------------------ classes, methods, inlining
+    def cur_file(self):
+        return getattr(self, '_cur_file', self.filekey)
+
+    def find_method(self, cname, meth, skip_first=False):
+        """(defining file, defining class name, FunctionDef) along the inheritance chain of class `cname`"""
+        if self.modules is None:
+            return None
+        chain = self.modules.mro(self.cur_file(), cname)
+        if not chain:
+            chain = self.modules.mro(self.filekey, cname)
+        if skip_first:
+            chain = chain[1:]
+        for (f, cdef) in chain:
+            for b in cdef.body:
+                if isinstance(b, ast.FunctionDef) and b.name == meth:
+                    return (f, cdef.name, b)
+        return None
+
+    def is_subclass(self, cname, target):
+        chain = self.modules.mro(self.cur_file(), cname) or self.modules.mro(self.filekey, cname)
+        return any(c.name == target for _, c in chain)
+
+    def instantiate(self, cname, cfile, args, kwargs, st, node):
+        obj = st.alloc(Obj(cname, {}))
+        saved = getattr(self, '_cur_file', None)
+        self._cur_file = cfile
+        try:
+            m = self.find_method(cname, '__init__')
+        finally:
+            self._cur_file = saved if saved is not None else self.filekey
+        if m is None:
+            if args or kwargs:
+                raise OutOfFragment('class %s has no __init__' % cname, node)
+            return obj
+        self.inline_call(m[0], m[1], m[2], [obj] + list(args), kwargs, st, node)
+        return obj
+
+    def inline_call(self, ffile, cls, fdef, args, kwargs, st, node):
+        """execute the body of a (loop-free, single-path) function in place: constructors, properties, casts.
+        Not modular on purpose: these helpers have no contract of their own; what they do is re-derived at every use."""
+        if self.inline_depth > 8:
+            raise OutOfFragment('inlining too deep (recursion?) at %s' % fdef.name, node)
+        a = fdef.args
+        if a.posonlyargs or a.kwonlyargs and any(d is None for d in a.kw_defaults):
+            raise OutOfFragment('signature of inlined %s' % fdef.name, node)
+        names = [x.arg for x in a.args]
+        env = {}
+        args = list(args)
+        if len(args) > len(names) and a.vararg is None:
+            raise OutOfFragment('too many arguments for %s' % fdef.name, node)
+        for nm, v in zip(names, args):
+            env[nm] = v
+        if a.vararg is not None:
+            env[a.vararg.arg] = tuple(args[len(names):])
+        kwargs = dict(kwargs)
+        defaults = dict(zip(names[len(names) - len(a.defaults):], a.defaults))
+        for nm in names[len(args):]:
+            if nm in kwargs:
+                env[nm] = kwargs.pop(nm)
+            elif nm in defaults:
+                d = defaults[nm]
+                if not isinstance(d, ast.Constant):
+                    raise OutOfFragment('non-constant default in inlined %s' % fdef.name, node)
+                env[nm] = to_z3(d.value) if isinstance(d.value, (bool, int, float)) else d.value
+            else:
+                raise OutOfFragment('missing argument %s for %s' % (nm, fdef.name), node)
+        for kw_, d in zip(a.kwonlyargs, a.kw_defaults):
+            if kw_.arg in kwargs:
+                env[kw_.arg] = kwargs.pop(kw_.arg)
+            else:
+                env[kw_.arg] = to_z3(d.value) if isinstance(d.value, (bool, int, float)) else d.value
+        if a.kwarg is not None:
+            env[a.kwarg.arg] = kwargs
+        elif kwargs:
+            raise OutOfFragment('unexpected keyword arguments %s for %s' % (sorted(kwargs), fdef.name), node)
+        body = fdef.body
+        if body and isinstance(body[0], ast.Expr) and isinstance(getattr(body[0], 'value', None), ast.Constant) \
+                and isinstance(body[0].value.value, str):
+            body = body[1:]
+        saved_env, saved_file, saved_cls = st.env, getattr(self, '_cur_file', None), self.class_name
+        st.env = env
+        self._cur_file = ffile
+        self.inline_depth += 1
+        try:
+            outs = self.exec_block(body, st)
+        finally:
+            self.inline_depth -= 1
+            self._cur_file = saved_file if saved_file is not None else self.filekey
+        if len(outs) != 1 or outs[0][0] is not st:
+            raise OutOfFragment('inlined %s is not single-path here (%d paths)' % (fdef.name, len(outs)), node)
+        st.env = saved_env
+        ctl = outs[0][1]
+        if ctl is None:
+            return None
+        if ctl[0] == 'return':
+            return ctl[1]
+        if ctl[0] == 'raise':
+            raise OutOfFragment('inlined %s raises %s on this path' % (fdef.name, ctl[1]), node)
+        raise OutOfFragment('control flow %r leaving inlined %s' % (ctl, fdef.name), node)
 
     def call_builtin(self, name, n, st):
+        if name == 'isinstance' and len(n.args) == 2:
+            v = self.pev(n.args[0], st)
+            targets = n.args[1].elts if isinstance(n.args[1], ast.Tuple) else [n.args[1]]
+            names = []
+            for t in targets:
+                names.append(ast.unparse(t))
+            if isinstance(v, Ref) and isinstance(st.heap[v.loc], Obj):
+                cls = st.heap[v.loc].cls
+                return z3.BoolVal(any(self.is_subclass(cls, t) for t in names))
+            if isinstance(v, Ref) and isinstance(st.heap[v.loc], ListObj):
+                return z3.BoolVal('list' in names)
+            if isinstance(v, (Ref, View, AV)):
+                return z3.BoolVal(any(t in ('numpy.ndarray', 'np.ndarray') for t in names))
+            if isinstance(v, tuple):
+                return z3.BoolVal('tuple' in names)
+            if is_z3(v) and z3.is_int(v):
+                return z3.BoolVal(any(t in ('int', 'numpy.integer') for t in names))
+            if v is None or isinstance(v, (str, dict)):
+                return z3.BoolVal(type(v).__name__ in names)
+            raise OutOfFragment('isinstance of this value', n)
+        if name == 'type' and len(n.args) == 1:
+            v = self.pev(n.args[0], st)
+            if isinstance(v, Ref) and isinstance(st.heap[v.loc], Obj):
+                cls = st.heap[v.loc].cls
+                r = self.modules.resolve(self.cur_file(), cls) or self.modules.resolve(self.filekey, cls)
+                return Tag('class', cls, r[1] if r else self.filekey)
+            raise OutOfFragment('type() of a non-object', n)
+        if name == 'super':
+            if len(n.args) == 2:
+                cls = ast.unparse(n.args[0])
+                recv = self.pev(n.args[1], st)
+            elif not n.args and 'self' in st.env and self.class_name:
+                cls = self.class_name
+                recv = st.env['self']
+            else:
+                raise OutOfFragment('super() form', n)
+            return Tag('super', cls, recv)
         args = [self.pev(a, st) for a in n.args]
         if name == 'len':
             v = args[0]
@@ -1052,11 +1279,19 @@ class FuncVerifier(object):
         body = compare(cmp_.op, at(av, a), at(bv, b))
         return z3.ForAll(idx, z3.Implies(z3.And(*rng), body))
 
-    def call_contract(self, fname, args, n, st):
-        callee = self.lib.by_name.get((self.filekey, fname))
+    def call_contract(self, fname, args, n, st, ffile=None, callee=None):
+        ffile = ffile or self.filekey
+        if callee is None:
+            callee = self.lib.by_name.get((ffile, fname))
         if callee is None:
             raise OutOfFragment('call to %s which has no contract' % fname, n)
-        site = 'call:%s' % self.call_ord[id(n)]
+        ordn = self.call_ord.get(id(n))
+        if ordn is None:
+            k = self.auto_ord.get(fname, 0)
+            self.auto_ord[fname] = k + 1
+            ordn = '%s#i%d' % (fname, k)
+            self.call_ord[id(n)] = ordn
+        site = 'call:%s' % ordn
         params = callee.params
         if len(args) > len(params):
             raise OutOfFragment('too many arguments for %s' % fname, n)
@@ -1064,62 +1299,87 @@ class FuncVerifier(object):
         for (p, t) in params[len(args):]:
             if p not in callee.defaults:
                 raise OutOfFragment('missing argument %s for %s' % (p, fname), n)
-            args.append(to_z3(callee.defaults[p]))
-        env_pre = {}
-        locs = {}
+            d = callee.defaults[p]
+            args.append(None if d is None else to_z3(d))
+        env = {}
+        locs = {}        # modifiable location per 'param' or 'param.field'
         for (p, t), a in zip(params, args):
-            if t in TYPE_ARR:
-                if not isinstance(a, (Ref, View, AV)):
+            if isinstance(t, str) and t in TYPE_ARR:
+                if isinstance(a, AV):
+                    a = st.alloc(a)
+                if not isinstance(a, (Ref, View)) or (isinstance(a, Ref) and not isinstance(st.heap[a.loc], AV)):
                     raise OutOfFragment('argument %s of %s must be an array' % (p, fname), n)
                 av = self.deref(a, st)
                 if av.ndim != TYPE_ARR[t][0]:
                     raise OutOfFragment('rank of argument %s of %s' % (p, fname), n)
-                env_pre[p] = AV(av.term, av.shape, av.elem)
+                env[p] = a
                 if isinstance(a, Ref):
                     locs[p] = a.loc
+            elif isinstance(t, dict):
+                if not (isinstance(a, Ref) and isinstance(st.heap[a.loc], Obj)):
+                    raise OutOfFragment('argument %s of %s must be an object' % (p, fname), n)
+                o = st.heap[a.loc]
+                if not self.is_subclass(o.cls, t['cls']):
+                    raise OutOfFragment('argument %s of %s must be a %s, got %s' % (p, fname, t['cls'], o.cls), n)
+                if t.get('exact') and o.cls != t['cls']:
+                    raise OutOfFragment('argument %s of %s must be exactly a %s' % (p, fname, t['cls']), n)
+                for fld in t['fields']:
+                    if fld not in o.fields:
+                        raise OutOfFragment('argument %s of %s lacks field %s' % (p, fname, fld), n)
+                    fv = o.fields[fld]
+                    if isinstance(fv, Ref) and isinstance(st.heap.get(fv.loc), AV):
+                        locs['%s.%s' % (p, fld)] = fv.loc
+                env[p] = a
+            elif t == 'none':
+                if a is not None:
+                    raise OutOfFragment('argument %s of %s must be None in this contract variant' % (p, fname), n)
+                env[p] = None
             else:
-                if isinstance(a, (Ref, View, AV, tuple)):
+                if isinstance(a, (Ref, View, AV, tuple)) or a is None:
                     raise OutOfFragment('argument %s of %s must be a scalar' % (p, fname), n)
-                env_pre[p] = to_z3(a)
-        spre = SpecEval(self.lib.theory, env_pre, {}, env_pre, {}, self.lib.preds)
+                env[p] = to_z3(a)
+        heap_pre = dict(st.heap)
+        spre = SpecEval(self.lib.theory, env, heap_pre, env, heap_pre, self.lib.preds)
         for k, r in enumerate(callee.requires):
             self.oblige(st, '%s.pre%d' % (site, k), spre.ev_bool(r), n, note=r)
-        # aliasing among arguments of a modifying callee
-        seen = {}
         for p in callee.modifies:
             if p not in locs:
                 raise OutOfFragment('%s modifies %s: the argument must be a whole array' % (fname, p), n)
+        seen = {}
         for p, l in locs.items():
             if l in seen and (p in callee.modifies or seen[l] in callee.modifies):
                 raise OutOfFragment('aliased arguments to %s' % fname, n)
             seen[l] = p
-        env_post = dict(env_pre)
         for p in callee.modifies:
             av = st.heap[locs[p]]
-            new = AV(fresh(p + '_m', av.term.sort()), av.shape, av.elem)
-            st.heap[locs[p]] = new
-            env_post[p] = new
-        # result
+            st.heap[locs[p]] = AV(fresh(p.replace('.', '_') + '_m', av.term.sort()), av.shape, av.elem)
+        # scalar fields listed in modifies (e.g. 'self.r') get fresh values
+        for p in callee.modifies_scalar:
+            base, fld = p.split('.')
+            a = env[base]
+            o = st.heap[a.loc]
+            o2 = Obj(o.cls, o.fields)
+            o2.fields[fld] = fresh(fld, to_z3(o.fields[fld]).sort())
+            st.heap[a.loc] = o2
+
         def mk(desc, k):
             if isinstance(desc, str) and desc.startswith('='):
-                return Ref(locs[desc[1:]]) if desc[1:] in locs else env_post[desc[1:]]
+                return env[desc[1:]]
             d = desc.replace(' fresh', '') if isinstance(desc, str) else desc
-            return self.fresh_value(st, '%s_r%d' % (fname, k), d)
+            return self.fresh_value(st, '%s_r%d' % (fname.replace('.', '_'), k), d)
         if callee.returns is None:
             result = None
         elif isinstance(callee.returns, (tuple, list)):
             result = tuple(mk(d, k) for k, d in enumerate(callee.returns))
         else:
             result = mk(callee.returns, 0)
+        env_post = dict(env)
         env_post['result'] = result
-        spost = SpecEval(self.lib.theory, env_post, st.heap, env_pre, {}, self.lib.preds)
+        spost = SpecEval(self.lib.theory, env_post, st.heap, env, heap_pre, self.lib.preds)
         for e in callee.ensures:
             st.pc.append(spost.ev_bool(e))
-        if callee.raises:
-            # the call returns normally only when no raise-condition holds
-            for exc, cond in callee.raises.items():
-                st.pc.append(z3.Not(spre.ev_bool(cond)))
-                self.oblige(st, '%s.noraise.%s' % (site, exc), z3.BoolVal(True), n)
+        for exc, cond in callee.raises.items():
+            st.pc.append(z3.Not(spre.ev_bool(cond)))
         return result
 
 
